@@ -2549,19 +2549,33 @@ private:
 
         constexpr bool make_nterm_empty(size16_t nt)
         {
-            if (nterm_empty_analyzed.test(nt))
-                return nterm_empty.test(nt);
-            nterm_empty_analyzed.set(nt);
-
-            const utils::slice& s = gi.nterm_rule_slices[nt];
-            for (size_t i = 0u; i < s.n; ++i)
+            if (!nterm_empty_ready)
             {
-                if (make_right_side_empty(gi.rule_infos[s.start + i]))
+                nterm_empty_ready = true;
+                bool changed = true;
+                while (changed)
                 {
-                    return (nterm_empty.set(nt), true);
+                    changed = false;
+                    for (size_t r = 0u; r < rule_count; ++r)
+                    {
+                        const rule_info& ri = gi.rule_infos[r];
+                        if (nterm_empty.test(ri.l_idx))
+                            continue;
+                        bool empty = true;
+                        for (size_t i = 0u; i < ri.r_elements && empty; ++i)
+                        {
+                            const symbol& s = gi.right_sides[ri.r_idx][i];
+                            empty = !s.term && nterm_empty.test(s.idx);
+                        }
+                        if (empty)
+                        {
+                            nterm_empty.set(ri.l_idx);
+                            changed = true;
+                        }
+                    }
                 }
             }
-            return (nterm_empty.reset(nt), false);
+            return nterm_empty.test(nt);
         }
 
         const grammar_info& gi;
@@ -2583,6 +2597,7 @@ private:
         nterm_subset nterm_empty_analyzed = { };
         nterm_subset nterm_first_analyzed = { };
         bool nterm_first_ready = false;
+        bool nterm_empty_ready = false;
     };
 
     constexpr static size16_t get_parse_table_idx(bool term, size16_t idx)
